@@ -185,6 +185,16 @@ def run(c, chk):
     chk.rule('R12.5', 'the skipper writes no option state')
     chk.trusted = ['clang/opt IR', 'reference item grammar in lcverif/props/c12.py (from the property text)']
     chk.assumptions = ['bounded enumeration of item shapes (nesting/width in the evidence); token values are irrelevant to the skipper']
+    # R12.4 first: a helper of the parser that reads tokens and calls itself (one C stack frame per nesting level of the
+    # input) cannot be presented as transitions of the state machine; it is what the rule forbids
+    pi = c.need('cfg_parse_internal')
+    for g in c.deep_funcs(pi):
+        if g is pi:
+            continue
+        if any(True for _ in g.calls(g.name)) and any(True for x in c.deep_funcs(g) for _ in x.calls('cfg_yylex')):
+            chk.fail('R12.4', 'unbounded-skipper-recursion:%s' % g.name, c.where(g), '%s() reads tokens and calls itself once per nested "{" of the input with no depth bound: '
+                     'skipping a deeply nested undeclared section or list overflows the stack' % g.name)
+            return
     model = pm.ParserModel(c)
     thorough = chk.tier == 'thorough'
     flag_reaches_sections(c, chk)
